@@ -290,8 +290,13 @@ pub(crate) fn repair_corrupted_wal_segment(wal_dir: &Path, segment_id: usize) ->
 		)));
 	}
 
-	// Create a repair directory for the new WAL file
+	// Create a repair directory for the new WAL file. A repair interrupted by a
+	// crash leaves its directory behind; the partial file in it must not be
+	// appended to (the "repaired" segment would start with that garbage).
 	let repair_dir = wal_dir.join("repair_temp");
+	if repair_dir.exists() {
+		fs::remove_dir_all(&repair_dir)?;
+	}
 	fs::create_dir_all(&repair_dir)?;
 
 	// Create a new Wal for writing the repaired data
